@@ -438,3 +438,79 @@ func (c *Ctx) ruleSuppliedNonNil(rule string) {
 	}
 	c.R.Floor(rule, 2)
 }
+
+// R-FIELDUNIQ (C12 "equal results whatever order the runtime iterates maps in"): the struct mapper walks the supplied
+// properties in map order and stores each into the field the field cache names. If two properties name the same field
+// the last one walked wins. The cache builder must therefore refuse a field that is already taken: every insertion
+// into a map[string]reflect.StructField is reached only on the not-found outcome of a lookup, in another map, under a
+// key computed from that very StructField (its Index or Name).
+func (c *Ctx) ruleFieldUniq(rule string) {
+	isSF := func(t types.Type) bool {
+		n, ok := t.(*types.Named)
+		return ok && n.Obj().Pkg() != nil && n.Obj().Pkg().Path() == "reflect" && n.Obj().Name() == "StructField"
+	}
+	var fromStructFieldVal func(v ssa.Value, d int) bool
+	fromStructFieldVal = func(v ssa.Value, d int) bool {
+		if d > 6 || v == nil {
+			return false
+		}
+		switch x := v.(type) {
+		case *ssa.Field:
+			return isSF(x.X.Type())
+		case *ssa.FieldAddr:
+			if p, ok := x.X.Type().Underlying().(*types.Pointer); ok && isSF(p.Elem()) {
+				return true
+			}
+		}
+		if in, ok := v.(ssa.Instruction); ok {
+			for _, op := range in.Operands(nil) {
+				if *op != nil && fromStructFieldVal(*op, d+1) {
+					return true
+				}
+			}
+		}
+		// a variadic argument slice: look at what is stored into its backing array
+		for _, e := range variadicElems(v) {
+			if e != nil && fromStructFieldVal(e, d+1) {
+				return true
+			}
+		}
+		return false
+	}
+	n := 0
+	for _, fn := range c.M.SortedFuncs(c.scopePkg("schema")) {
+		cnt := 0
+		for _, b := range fn.Blocks {
+			for _, in := range b.Instrs {
+				mu, ok := in.(*ssa.MapUpdate)
+				if !ok {
+					continue
+				}
+				mt, ok := mu.Map.Type().Underlying().(*types.Map)
+				if !ok || !isSF(mt.Elem()) {
+					continue
+				}
+				n++
+				cnt++
+				k := key(rule, c.M.Key(fn), sprintf("field-cache insertion #%d only for a field that is not taken yet", cnt))
+				est := func(cond core.Cond) bool {
+					ex, ok := cond.V.(*ssa.Extract)
+					if !ok || ex.Index != 1 || cond.True {
+						return false
+					}
+					lk, ok := ex.Tuple.(*ssa.Lookup)
+					return ok && lk.CommaOk && lk.X != mu.Map && fromStructFieldVal(lk.Index, 0)
+				}
+				if core.MustHold(fn, est)[b] {
+					c.R.Ok(rule, k, c.M.InstrPos(mu), "mapping of a property to a struct field", "on every path a lookup keyed by the field (its Index / Name) in a second table found it not taken")
+				} else {
+					c.R.Bad(rule, k, c.M.InstrPos(mu), "two properties can be mapped to the same struct field",
+						"one property is found by the field's json tag, another by the field's name: Unserialize stores both values into the one field in the iteration order of the supplied map, so a supplied value is overwritten by the other property's value or default at random")
+				}
+			}
+		}
+	}
+	if n == 0 {
+		c.R.Unresolved(rule, "construction of the property -> struct field cache (insertion into a map[string]reflect.StructField)")
+	}
+}
